@@ -40,6 +40,11 @@ def check(ctx):
     # 5-set alphabet): a later call must not change what an earlier call returned, and the caller's dicts must stay untouched
     for seq in list(itertools.permutations(range(len(DEFERRED)), 2)) + ([] if ctx.quick else list(itertools.permutations(range(len(DEFERRED)), 3))):
         cases.append({"kind": "deferred", "seq": list(seq)})
+    # coefficient SERIES: every magnitude / angle given as an array of 3 values (a through-focus or astigmatism series converted at once)
+    for c_, p_ in PAIRS:
+        cases.append({"kind": "series", "pairs": [[c_, p_]]})
+    for (c1, p1), (c2, p2) in itertools.combinations(PAIRS, 2):
+        cases.append({"kind": "series", "pairs": [[c1, p1], [c2, p2]]})
     ctx.workers = 8
     ctx.run(cases, "run_case", rule="one case per coefficient set; non-trivial = some magnitude is non-zero")
 
@@ -89,9 +94,41 @@ def run_deferred(case):
     return {"viol": viol[:2], "obs": "deferred", "nt": True, "tr": 2 * len(inputs), "ref": len(inputs)}
 
 
+def run_series(case):
+    import abtem.transfer as T
+    from mc.ref import chi as R
+
+    mags = np.array([1.5, -2.0, 0.75])
+    angs = np.array([0.4, -1.0, 2.0])
+    coef = {}
+    for k, (c_, p_) in enumerate(case["pairs"]):
+        coef[c_] = mags * (k + 1)
+        coef[p_] = angs + 0.3 * k
+    back = T.cartesian2polar(T.polar2cartesian({k: v.copy() for k, v in coef.items()}))
+    alpha = np.linspace(0.0, 1.0, 6)[:, None]
+    phi = np.linspace(-np.pi, np.pi, 16, endpoint=False)[None]
+    viol, worst = [], 0.0
+    for i in range(3):
+        a = R.chi({k: float(v[i]) for k, v in coef.items()}, alpha, phi)
+        try:
+            b = R.chi({k: float(np.asarray(v).reshape(-1)[i] if np.asarray(v).size > 1 else np.asarray(v).reshape(-1)[0]) for k, v in back.items()}, alpha, phi)
+        except Exception as e:  # noqa: BLE001
+            viol.append({"key": "series/shape", "msg": "round-tripped series coefficients do not have one value per member: %r (%s)" % ({k: np.shape(v) for k, v in back.items() if np.size(v) > 0}, e)})
+            break
+        e_ = float(np.abs(a - b).max()) / max(1.0, float(np.abs(a).max()))
+        worst = max(worst, e_ / 1e-10)
+        if not e_ <= 1e-10:
+            viol.append({"key": "series/chi-differs", "msg": "member %d of the series %r: chi after the round trip differs by %.3g (the magnitudes came back as %r)" % (
+                i, {k: v.tolist() for k, v in coef.items()}, e_, {k: np.round(np.asarray(v, float), 4).tolist() for k, v in back.items() if k.startswith("C") and np.any(np.asarray(v) != 0)})})
+            break
+    return {"viol": viol, "obs": "series", "nt": True, "tr": 2, "ref": 3, "err": worst}
+
+
 def run_case(case):
     if case.get("kind") == "deferred":
         return run_deferred(case)
+    if case.get("kind") == "series":
+        return run_series(case)
     import abtem.transfer as T
     from mc.ref import chi as R
 
